@@ -264,7 +264,7 @@ fn show_tlsa(t: &hickory_proto::rr::rdata::TLSA) -> String {
     )
 }
 
-fn show_record(r: &Record) -> String {
+pub(crate) fn show_record(r: &Record) -> String {
     format!(
         "R({},{},{},{},{})",
         name_tok(&r.name),
@@ -275,11 +275,11 @@ fn show_record(r: &Record) -> String {
     )
 }
 
-fn show_query(q: &Query) -> String {
+pub(crate) fn show_query(q: &Query) -> String {
     format!("Q({},{},{})", name_tok(&q.name), u16::from(q.query_type), u16::from(q.query_class))
 }
 
-fn show_md(m: &hickory_proto::op::Metadata) -> String {
+pub(crate) fn show_md(m: &hickory_proto::op::Metadata) -> String {
     format!(
         "H({},{},{},{},{},{},{},{},{},{})",
         m.id,
@@ -295,7 +295,7 @@ fn show_md(m: &hickory_proto::op::Metadata) -> String {
     )
 }
 
-fn show_edns(e: Option<&Edns>) -> String {
+pub(crate) fn show_edns(e: Option<&Edns>) -> String {
     match e {
         None => "-".into(),
         Some(e) => format!(
@@ -314,14 +314,14 @@ fn show_recs(rs: &[Record]) -> String {
     rs.iter().map(show_record).collect::<Vec<_>>().join(",")
 }
 
-fn show_sig(s: Option<&Record<hickory_proto::rr::rdata::TSIG>>) -> String {
+pub(crate) fn show_sig(s: Option<&Record<hickory_proto::rr::rdata::TSIG>>) -> String {
     match s {
         None => "-".into(),
         Some(r) => format!("R({},250,{},{},{})", name_tok(&r.name), u16::from(r.dns_class), r.ttl, show_tsig(&r.data)),
     }
 }
 
-fn show_message(m: &Message) -> String {
+pub(crate) fn show_message(m: &Message) -> String {
     format!(
         "{} Q[{}] AN[{}] NS[{}] AR[{}] SIG[{}] EDNS[{}]",
         show_md(&m.metadata),
@@ -730,7 +730,7 @@ fn exec(line: &str, rec: &mut Recorder, w: &Watch) {
 
 const LABELS: &[&[u8]] = &[b"www", b"example", b"com", b"net", b"a", b"mail", b"ns1", b"_tcp", b"_sip", b"xn--abc", b"EXAMPLE", b"*"];
 
-fn gen_name(r: &mut Rng) -> Name {
+pub(crate) fn gen_name(r: &mut Rng) -> Name {
     let n = match r.below(10) {
         0 => 0,
         1..=6 => r.range(1, 4),
@@ -806,7 +806,7 @@ fn bitmaps(r: &mut Rng) -> Vec<u8> {
 }
 
 /// hand-assembled well-formed RDATA of the types that are built from wire seeds
-fn seed_rdata(r: &mut Rng, ty: u16) -> Vec<u8> {
+pub(crate) fn seed_rdata(r: &mut Rng, ty: u16) -> Vec<u8> {
     let mut v = vec![];
     match ty {
         43 | 59 => {
@@ -956,7 +956,7 @@ fn seed_rdata(r: &mut Rng, ty: u16) -> Vec<u8> {
     v
 }
 
-fn gen_opt(r: &mut Rng) -> OPT {
+pub(crate) fn gen_opt(r: &mut Rng) -> OPT {
     let mut opts = vec![];
     for _ in 0..r.below(4) {
         let (code, data): (u16, Vec<u8>) = match r.below(7) {
@@ -996,10 +996,10 @@ fn gen_opt(r: &mut Rng) -> OPT {
     OPT::new(opts)
 }
 
-const TIER1: &[u16] = &[1, 28, 2, 5, 12, 65305, 15, 6, 16, 33, 13, 10, 99, 65280];
-const SEEDED: &[u16] = &[43, 59, 48, 60, 25, 46, 24, 47, 50, 51, 257, 64, 65, 35, 37, 62, 52, 53, 44, 61];
+pub(crate) const TIER1: &[u16] = &[1, 28, 2, 5, 12, 65305, 15, 6, 16, 33, 13, 10, 99, 65280];
+pub(crate) const SEEDED: &[u16] = &[43, 59, 48, 60, 25, 46, 24, 47, 50, 51, 257, 64, 65, 35, 37, 62, 52, 53, 44, 61];
 
-fn gen_rdata(r: &mut Rng, ty: u16, rec: &mut Recorder) -> Option<RData> {
+pub(crate) fn gen_rdata(r: &mut Rng, ty: u16, rec: &mut Recorder) -> Option<RData> {
     Some(match ty {
         1 => RData::A(A(std::net::Ipv4Addr::from(r.next() as u32))),
         28 => RData::AAAA(AAAA(std::net::Ipv6Addr::from(((r.next() as u128) << 64) | r.next() as u128))),
@@ -1057,7 +1057,7 @@ fn gen_rdata(r: &mut Rng, ty: u16, rec: &mut Recorder) -> Option<RData> {
     })
 }
 
-fn gen_record(r: &mut Rng, rec: &mut Recorder, tier1_only: bool) -> Option<Record> {
+pub(crate) fn gen_record(r: &mut Rng, rec: &mut Recorder, tier1_only: bool) -> Option<Record> {
     let ty = if tier1_only || r.chance(3, 5) { *r.pick(TIER1) } else { *r.pick(SEEDED) };
     let d = gen_rdata(r, ty, rec)?;
     let mut x = Record::from_rdata(gen_name(r), r.next() as u32, d);
@@ -1067,7 +1067,7 @@ fn gen_record(r: &mut Rng, rec: &mut Recorder, tier1_only: bool) -> Option<Recor
     Some(x)
 }
 
-fn gen_message(r: &mut Rng, rec: &mut Recorder, tier1_only: bool, request: bool) -> Vec<u8> {
+pub(crate) fn gen_message(r: &mut Rng, rec: &mut Recorder, tier1_only: bool, request: bool) -> Vec<u8> {
     let op = match r.below(10) {
         0 | 1 => OpCode::Update,
         2 => OpCode::Notify,
@@ -1143,7 +1143,7 @@ fn gen_message(r: &mut Rng, rec: &mut Recorder, tier1_only: bool, request: bool)
     }
 }
 
-fn mutate(r: &mut Rng, buf: &mut Vec<u8>) -> &'static str {
+pub(crate) fn mutate(r: &mut Rng, buf: &mut Vec<u8>) -> &'static str {
     if buf.is_empty() {
         buf.push(r.byte());
         return "grow";
